@@ -120,7 +120,8 @@ def finish(ctx, explanation, not_decided):
     known_keys = {}
     for k in known.get("findings", []):
         if k.get("property") == ctx.prop:
-            known_keys[k["key"]] = k
+            for kk in ([k["key"]] if "key" in k else []) + list(k.get("keys", [])):
+                known_keys[kk] = k
     out_dir = os.path.join(VERIF, "out", ctx.prop)
     os.makedirs(out_dir, exist_ok=True)
     new = []
